@@ -193,6 +193,7 @@ CHECKS = {
         units=[
             R("TestC12_RowBuilder", 24000, 600000, shards=16),
             R("TestC12_Pushdown", 3200, 40000, shards=16),
+            P("TestC12_KnownFindings"),
         ],
     ),
     "C16": dict(
